@@ -11,22 +11,16 @@ def inputWF (i : Input) : Bool :=
   | none => true
   | some t => treeWF i.cfg t
 
-/-- the call lies in the region of known finding F02a -/
-def inK (i : Input) : Bool :=
-  match i.top with
-  | none => false
-  | some t => lateTail t
-
-theorem one_spec (c : Cfg) (b : Bool) (e : XTree) (hwf : treeWF c e = true) (hk : b = false → lateTail e = false) :
+theorem one_spec (c : Cfg) (b : Bool) (e : XTree) (hwf : treeWF c e = true) :
     (iter (buildOne c 1 e).1).map (blankIf b) = ((itemsOne c none 0 e).map (place 1)).map (blankIf b) := by
-  have := (buildOne_spec c b 1 e 1 0 none rfl hwf hk).1
+  have := (buildOne_spec c b 1 e 1 0 none rfl hwf).1
   simpa [iter] using this
 
 theorem etDoc_spec (c : Cfg) (b : Bool) (d : Nat) (e : XTree)
-    (he : e.isElem = true) (hwf : treeWF c e = true) (hk : b = false → lateTail e = false) :
+    (he : e.isElem = true) (hwf : treeWF c e = true) :
     (iter (.doc d [(buildOne c (d + 1) e).1])).map (blankIf b)
       = ((documentItems c [] (some e) []).map (place d)).map (blankIf b) := by
-  have := docNode_spec c b d [] e [] he hwf hk
+  have := docNode_spec c b d [] e [] he hwf
   simpa [buildSiblings] using this
 
 theorem emptyDoc_spec (c : Cfg) (b : Bool) :
@@ -35,7 +29,7 @@ theorem emptyDoc_spec (c : Cfg) (b : Bool) :
 
 /-- FAITHFUL IMAGE (lemma form, `b` selects whether element/document string values are compared) -/
 theorem iter_eq_spec_aux (b : Bool) (i : Input) (root : PNode) (h : build i = .ok root)
-    (hwf : inputWF i = true) (hk : b = false → inK i = false) :
+    (hwf : inputWF i = true) :
     ∃ items, specItems i = some items ∧
       (iter root).map (blankIf b) = (items.map (place root.pos)).map (blankIf b) := by
   obtain ⟨⟨lxml, namespaces, fragment⟩, isTree, prolog, top, epilog, path⟩ := i
@@ -55,7 +49,6 @@ theorem iter_eq_spec_aux (b : Bool) (i : Input) (root : PNode) (h : build i = .o
         exact ⟨documentItems ⟨false, namespaces, fragment⟩ [] none [], by simp, emptyDoc_spec _ b⟩
     | some e =>
       simp only [inputWF] at hwf
-      simp only [inK] at hk
       cases he : e.isElem with
       | false => cases isTree <;> simp [he] at h
       | true =>
@@ -66,11 +59,11 @@ theorem iter_eq_spec_aux (b : Bool) (i : Input) (root : PNode) (h : build i = .o
           · subst hf
             simp only [beq_self_eq_true, if_true, Except.ok.injEq] at h; subst h
             refine ⟨itemsOne ⟨false, namespaces, some true⟩ none 0 e, by simp, ?_⟩
-            rw [buildOne_pos]; exact one_spec _ b e hwf hk
+            rw [buildOne_pos]; exact one_spec _ b e hwf
           · have : (fragment == some true) = false := by simpa using hf
             simp only [this, Bool.false_eq_true, if_false, Except.ok.injEq] at h; subst h
             refine ⟨documentItems ⟨false, namespaces, fragment⟩ [] (some e) [], by simp [hf], ?_⟩
-            exact etDoc_spec _ b 1 e he hwf hk
+            exact etDoc_spec _ b 1 e he hwf
         | false =>
           simp only [he, Bool.not_true, Bool.false_eq_true, if_false] at h
           by_cases hf : fragment = some false
@@ -78,11 +71,11 @@ theorem iter_eq_spec_aux (b : Bool) (i : Input) (root : PNode) (h : build i = .o
             simp only [beq_self_eq_true, if_true, Except.ok.injEq] at h; subst h
             refine ⟨documentItems ⟨false, namespaces, some false⟩ [] (some e) [], by simp, ?_⟩
             rw [buildOne_pos]
-            exact etDoc_spec _ b 0 e he hwf hk
+            exact etDoc_spec _ b 0 e he hwf
           · have : (fragment == some false) = false := by simpa using hf
             simp only [this, Bool.false_eq_true, if_false, Except.ok.injEq] at h; subst h
             refine ⟨itemsOne ⟨false, namespaces, fragment⟩ none 0 e, by simp [hf], ?_⟩
-            rw [buildOne_pos]; exact one_spec _ b e hwf hk
+            rw [buildOne_pos]; exact one_spec _ b e hwf
   | true =>
     simp only [if_true] at h
     unfold buildLxml at h
@@ -107,7 +100,6 @@ theorem iter_eq_spec_aux (b : Bool) (i : Input) (root : PNode) (h : build i = .o
           · simp [hp] at h
     | some top =>
       simp only [inputWF] at hwf
-      simp only [inK] at hk
       cases htop : top.isElem with
       | false => simp [htop] at h
       | true =>
@@ -115,7 +107,7 @@ theorem iter_eq_spec_aux (b : Bool) (i : Input) (root : PNode) (h : build i = .o
         have hdoc : (iter (buildLxmlDoc ⟨⟨true, namespaces, fragment⟩, isTree, prolog, some top, epilog, path⟩)).map (blankIf b)
             = ((documentItems ⟨true, namespaces, fragment⟩ prolog (some top) epilog).map (place 1)).map (blankIf b) := by
           simp only [buildLxmlDoc]
-          exact docNode_spec _ b 1 prolog top epilog htop hwf hk
+          exact docNode_spec _ b 1 prolog top epilog htop hwf
         have hdocpos : (buildLxmlDoc ⟨⟨true, namespaces, fragment⟩, isTree, prolog, some top, epilog, path⟩).pos = 1 := rfl
         split at h
         · contradiction
@@ -124,7 +116,6 @@ theorem iter_eq_spec_aux (b : Bool) (i : Input) (root : PNode) (h : build i = .o
           | none => simp [hsub] at h
           | some e =>
             have hwfe := subtreeAt_wf ⟨true, namespaces, fragment⟩ path top e hsub hwf
-            have hke : b = false → lateTail e = false := fun hb => subtreeAt_late path top e hsub (hk hb)
             simp only [hsub] at h
             cases he : e.isElem with
             | false => simp [he] at h
@@ -134,7 +125,7 @@ theorem iter_eq_spec_aux (b : Bool) (i : Input) (root : PNode) (h : build i = .o
               · subst hf
                 simp only [beq_self_eq_true, if_true, Except.ok.injEq] at h; subst h
                 refine ⟨itemsOne ⟨true, namespaces, some true⟩ none 0 e, by simp [hsub], ?_⟩
-                rw [buildOne_pos]; exact one_spec _ b e hwfe hke
+                rw [buildOne_pos]; exact one_spec _ b e hwfe
               · have hf' : (fragment == some true) = false := by simpa using hf
                 simp only [hf', Bool.false_eq_true, if_false] at h
                 cases isTree with
@@ -154,6 +145,6 @@ theorem iter_eq_spec_aux (b : Bool) (i : Input) (root : PNode) (h : build i = .o
                     simp only [Except.ok.injEq] at h; subst h
                     refine ⟨itemsOne ⟨true, namespaces, fragment⟩ none 0 e, ?_, ?_⟩
                     · simp only [Bool.not_true, Bool.false_eq_true, if_false, hf', Bool.false_or, hc, hsub]
-                    · rw [buildOne_pos]; exact one_spec _ b e hwfe hke
+                    · rw [buildOne_pos]; exact one_spec _ b e hwfe
 
 end EPV.Builder
